@@ -56,7 +56,9 @@ func admit(src, dst string, peers []c13Peer) bool {
 
 func c13World(t *testing.T, p c13Params) rt.Result {
 	nAdmit, nRefuse := 0, 0
-	out := hz.Run(t, hz.Opts{Seed: p.Seed, HookMode: p.Hook}, func(w *hz.World) {
+	lr := rt.Get().Rand("c13lis", int(p.Seed))
+	out := hz.Run(t, hz.Opts{Seed: p.Seed, HookMode: p.Hook, ExtraListeners: int(p.Seed % 3)}, func(w *hz.World) {
+		nl := 1 + len(w.Extra)
 		mons := map[string]*hz.PeerMon{}
 		live := map[string]*hz.RConn{} // the connection that carries a peer's Established session
 		acceptFor := map[netip.Addr]bool{}
@@ -169,11 +171,12 @@ func c13World(t *testing.T, p c13Params) rt.Result {
 			for _, dst := range c13Dsts {
 				want := admit(src, dst, p.Peers)
 				before := callbacks()
-				rc := w.ConnectTo(netip.MustParseAddr(src), netip.MustParseAddr(dst))
+				via := lr.IntN(nl)
+				rc := w.ConnectVia(via, netip.MustParseAddr(src), netip.MustParseAddr(dst))
 				w.Settle()
 				ms := rc.Msgs()
 				served := len(ms) > 0
-				desc := fmt.Sprintf("[connection %s -> %s; peers %+v]", src, dst, p.Peers)
+				desc := fmt.Sprintf("[connection %s -> %s via listener %d of %d; peers %+v]", src, dst, via, nl, p.Peers)
 				if served != want {
 					if want {
 						w.Violate("%s must be handed to a BGP session (OPEN expected) but got [%s] eof=%v", desc, typesOf(ms), func() bool { e, _ := rc.EOF(); return e }())
@@ -237,6 +240,41 @@ func c13World(t *testing.T, p c13Params) rt.Result {
 				c.Close()
 			}
 			w.Settle()
+		}
+		// a connection arriving at the instant the peer's outbound session becomes
+		// Established is refused or killed, never forgotten: whatever happens it ends up
+		// closed (the accountant at Close finds a connection left open)
+		for _, pp := range p.Peers {
+			if pp.State != "out-opensent" {
+				continue
+			}
+			var oc *hz.RConn
+			for _, c := range w.OutConns() {
+				if c.PeerIP == netip.MustParseAddr(pp.Addr) {
+					oc = c
+				}
+			}
+			if oc == nil {
+				continue
+			}
+			if eof, _ := oc.EOF(); eof {
+				continue
+			}
+			oc.SendOpen(oc.StdOpen(remoteAS, 90, remoteIDu))
+			w.Settle()
+			dst := localFor(pp)
+			oc.SendKeepalive()
+			c1 := w.ConnectTo(netip.MustParseAddr(pp.Addr), dst)
+			time.Sleep(time.Duration(lr.IntN(3000)))
+			c2 := w.ConnectTo(netip.MustParseAddr(pp.Addr), dst)
+			w.Settle()
+			for _, c := range []*hz.RConn{c1, c2} {
+				if eof, _ := c.EOF(); !eof {
+					if m := mons[pp.Addr]; m != nil && m.Up() && len(c.Msgs()) <= 1 {
+						w.Violate("an inbound connection from %s that arrived while its outbound session was becoming Established was neither closed nor served (messages: [%s])", pp.Addr, typesOf(c.Msgs()))
+					}
+				}
+			}
 		}
 		// existing sessions are unaffected
 		for a, rc := range live {
